@@ -1075,6 +1075,9 @@ class HookInterp(Interp):
                 return self.set_binop(ctx, {"difference": "sub", "intersection": "and"}[f.name], f.recv, other)
             raise Unsupported(f"set.{f.name}")
 
+        if isinstance(f, VExternal) and f.dotted.split(".")[0] in ("constdict", "list", "tuple", "str", "int", "float", "bool", "none"):
+            # a method of a builtin value (a constant table, a list the hook built, a string): not an external dependency
+            return super().call(ctx, f, args, kwargs)
         if isinstance(f, VExternal):
             # frame condition of a hook: it may call converter.structure and pure builtins only
             self.site.__dict__.setdefault("frame_calls", [])
